@@ -483,28 +483,33 @@ class Runner:
             p.merge(r)
 
     def _regress(self, name, fn):
-        """Replay tier: every saved failing case of a repaired defect for this part is executed
-        directly (no Hypothesis).  It must pass now; if the defect returns it fails in seconds."""
+        """Replay tier: every saved case that once exposed a defect (a repaired one, or a seeded change) in this
+        part is executed directly (no Hypothesis).  It must pass now; if the defect returns it fails in seconds.
+        A saved case the current code can no longer run (generators evolve) is counted and skipped."""
         import glob
-        files = sorted(glob.glob(os.path.join(REGRESS_DIR, "%s-%s-*.json" % (self.prop, name))))
-        if not files:
-            return
-        st = self._part(name)
-        ctx = Ctx(st, self._is_known)
-        for path in files:
+        st = None
+        for path in sorted(glob.glob(os.path.join(REGRESS_DIR, "%s-*.json" % self.prop))):
             try:
                 with open(path) as fh:
                     d = json.load(fh)
+                if d.get("part") != name:
+                    continue
                 case = _unpack(d["case_pickle"])
-            except Exception as e:  # an unreadable file is a harness problem, not a verdict
-                st.errors.append("regression file %s unreadable: %r" % (path, e))
+            except Exception:
+                self._part(name).classes["regression-file-unusable"] += 1
                 continue
-            ctx.frozen = False
+            st = self._part(name)
+            ctx = Ctx(st, self._is_known)
+            scratch = Stats()
             v = None
             try:
-                v = _run_case(ctx, fn, case, st)
+                v = _run_case(ctx, fn, case, scratch)
             except HarnessAbort:
-                pass
+                st.classes["regression-file-unusable"] += 1
+                continue
+            if scratch.timeouts:
+                st.classes["regression-file-unusable"] += 1
+                continue
             st.classes["regression-replayed"] += 1
             if v is not None:
                 st.failures.append(_failure_record(v))
